@@ -899,7 +899,7 @@ type c20CacheCase struct {
 }
 
 var c20CacheWriters = []string{"access", "access-error", "authorize-query", "authorize-fragment", "authorize-form_post", "authorize-error-query", "authorize-error-direct", "introspection", "introspection-inactive", "introspection-error",
-	"revocation", "revocation-error", "par", "par-error", "device", "device-error"}
+	"revocation", "revocation-error", "par", "par-error", "device", "device-error", "authorize-custom-mode", "authorize-error-custom-mode"}
 var c20CachePresets = []string{"", "public, max-age=300", "max-age=0", "private"}
 
 func c20CacheRun(c c20CacheCase, res *WRes) {
@@ -948,6 +948,12 @@ func c20CacheRun(c c20CacheCase, res *WRes) {
 		w.Prov.WriteAuthorizeResponse(ctx, rec, mkAR(fosite.ResponseModeFragment, true), authzResp())
 	case "authorize-form_post":
 		w.Prov.WriteAuthorizeResponse(ctx, rec, mkAR(fosite.ResponseModeFormPost, true), authzResp())
+	case "authorize-custom-mode":
+		w.Cfg.ResponseModeHandlerExtension = c20CustomMode{}
+		w.Prov.WriteAuthorizeResponse(ctx, rec, mkAR("custom_mode", true), authzResp())
+	case "authorize-error-custom-mode":
+		w.Cfg.ResponseModeHandlerExtension = c20CustomMode{}
+		w.Prov.WriteAuthorizeError(ctx, rec, mkAR("custom_mode", true), e)
 	case "authorize-error-query":
 		w.Prov.WriteAuthorizeError(ctx, rec, mkAR(fosite.ResponseModeQuery, true), e)
 	case "authorize-error-direct":
@@ -986,6 +992,22 @@ func c20CacheRun(c c20CacheCase, res *WRes) {
 		res.violate(Violation{Property: "C20", Fingerprint: "C20/missing-cache-headers/" + c.Writer + "/preset=" + map[bool]string{true: "none", false: "application-set"}[c.Preset == ""],
 			What: fmt.Sprintf("the %s response leaves with Cache-Control %q / Pragma %q (the response writer came with Cache-Control %q): not marked no-store / no-cache", c.Writer, cc, pr, c.Preset), Engine: "c20cache", Case: c, Expected: "Cache-Control: no-store, Pragma: no-cache", Observed: hdr})
 	}
+}
+
+// c20CustomMode: an integrator's response-mode extension written to the interface's contract ("following headers are
+// expected to be set by default"): it renders the response and leaves the cache headers to the library.
+type c20CustomMode struct{}
+
+func (c20CustomMode) ResponseModes() fosite.ResponseModeTypes {
+	return fosite.ResponseModeTypes{"custom_mode"}
+}
+func (c20CustomMode) WriteAuthorizeResponse(ctx context.Context, rw http.ResponseWriter, ar fosite.AuthorizeRequester, resp fosite.AuthorizeResponder) {
+	rw.WriteHeader(http.StatusOK)
+	rw.Write([]byte(resp.GetParameters().Encode()))
+}
+func (c20CustomMode) WriteAuthorizeError(ctx context.Context, rw http.ResponseWriter, ar fosite.AuthorizeRequester, err error) {
+	rw.WriteHeader(http.StatusBadRequest)
+	rw.Write([]byte("error"))
 }
 
 // c20HTMLRepresentable: what an HTML attribute can carry of s (invalid UTF-8 bytes and NUL become U+FFFD one by
